@@ -14,6 +14,9 @@ macro_rules! six_shapes {
             "3" => h(&(&a $op &c)),
             "4" => { let mut x = a; x $opa c; h(&x) }
             "5" => { let mut x = a; x $opa &c; h(&x) }
+            // both references point at the SAME object when the operands are equal (aliasing)
+            "6" => { if a == c { let r = &a; h(&(r $op r)) } else { h(&(&a $op &c)) } }
+            "7" => { if a == c { let r = &a; h(&(a $op r)) } else { h(&(a $op &c)) } }
             _ => "bad-op".into(),
         }
     }};
